@@ -829,6 +829,7 @@ func (m c01) cliPipe(c *fw.Ctx, ws [][]byte) {
 		{[]string{"delete", "zz_no_such_key"}, true, false}, {[]string{"delete", "-e", "zz_no_such_key"}, true, false}, {[]string{"delete", "gene"}, true, false},
 		{[]string{"rotate", "zz_no_such_key"}, true, false}, {[]string{"insert", "zz_no_such_key", "@acgt"}, true, false}, {[]string{"insert", "gene", "@acgt"}, true, false},
 		{[]string{"define", "misc_feature", "1..1"}, true, false}, {[]string{"search", "@acg"}, true, false},
+		{[]string{"define", "misc_feature", "1..1", "-q", "note=ratio a=b, c=d", "-q", "gene=x/y"}, true, false}, {[]string{"search", "@acg", "-q", "note=k=v"}, true, false},
 		{[]string{"extract", "gene"}, false, false}, {[]string{"split", "gene"}, false, false}, {[]string{"join"}, false, false}, {[]string{"pick", "0"}, false, false},
 	}
 	seconds := [][]string{{"clear"}, {"sort"}, {"complement"}, {"reverse"}}
@@ -867,6 +868,23 @@ func (m c01) cliPipe(c *fw.Ctx, ws [][]byte) {
 				c.Violate("cli:records-lost-or-added:"+st.args[0], enc, fmt.Sprintf("%d records", nin), fmt.Sprintf("%d records", len(recs)))
 				continue
 			}
+			// what gts printed is a fixed point of read-then-write: nothing in
+			// the text is dropped or respelled by the reader.
+			var again bytes.Buffer
+			wok := true
+			for _, rc := range recs {
+				w, werr, wp, _, _, _ := writeGB(rc)
+				if werr != nil || wp {
+					wok = false
+					break
+				}
+				again.Write(w)
+			}
+			if wok && !bytes.Equal(again.Bytes(), a.Stdout) {
+				c.Violate("cli:output-not-a-fixed-point:"+st.args[0], enc, clipS(string(a.Stdout), 3000), clipS(again.String(), 3000))
+				continue
+			}
+			c.Bucket("cli:output-fixed-point")
 			b := env.Run(append(append([]string{}, second...), "--no-cache"), a.Stdout, nil, 60*time.Second)
 			if b.Exit != 0 || b.TimedOut {
 				c.Violate("cli:second-stage-rejects-gts-output:"+second[0], enc, "exit 0", fmt.Sprintf("exit %d %s", b.Exit, clipS(string(b.Stderr), 500)))
